@@ -86,6 +86,10 @@ func (s *Sim) serveSerial() {
 			n := int(binary.BigEndian.Uint16(lb))
 			s.mu.Lock()
 			exp := s.expectLen
+			if s.staleArmed {
+				s.staleArmed = false
+				s.sendCtrl(fmt.Sprintf("BUFFER %d", s.outstanding))
+			}
 			s.mu.Unlock()
 			if exp >= 0 && n != exp {
 				s.desync(fmt.Sprintf("data frame declares length %d (bytes %02x %02x), the host wrote %d bytes (big-endian 16 bit count expected)", n, lb[0], lb[1], exp), append(pre, lb...))
